@@ -58,7 +58,11 @@ Definition mcon_is_any (c : mcon) := match c with CG g => g_is_any g | CV v => i
 Definition mcon_str (c : mcon) : res string := match c with CG g => Ok (g_str g) | CV v => vc_str v end.
 (* SingleMarker(name, constraint object): the text of the constraint is parsed again *)
 Definition single_of_con (name : string) (c : mcon) : res marker :=
-  do s <- mcon_str c; do l <- mk_leaf name s false; Ok (MSingle l).
+  (* an equality keeps its operator (str() of a Constraint omits "=="; a value such as "internal" would be read as "in") *)
+  do s <- match c with
+          | CG (GS (SAtom a)) => match aop a with GEq => Ok ("==" ++ av a) | _ => mcon_str c end
+          | _ => mcon_str c end;
+  do l <- mk_leaf name s false; Ok (MSingle l).
 Definition single_of_text (name cstr : string) : res marker := do l <- mk_leaf name cstr false; Ok (MSingle l).
 
 Record stacks := mkSt { s_int : list (list marker); s_uni : list (list marker) }.
